@@ -75,6 +75,12 @@ class Check(PropertyCheck):
             if tier == "quick":
                 oom = int(t.EzspStatus.ERROR_OUT_OF_MEMORY)
                 sts = sorted(set([1, 0x30, 0x35, oom, 0xFF]) | set(rng.sample(sts, 6)))
+            # the NCP answers in the status family the version's table declares: from v14 on the unified status
+            st_ty = E.EZSP._BY_VERSION[v].COMMANDS["setConfigurationValue"][2]["status"]
+            if st_ty is not t.EzspStatus:
+                sts = sorted({int(m) for m in st_ty} - {0})
+                if tier == "quick":
+                    sts = sorted(set([1, 2, 3, 4, 5, 0x0D, 0x17, 0x18, 0x21, 0x2F, 0xFF]) | set(rng.sample(sts, 6)))
             names = list(defaults)
             for code in sts:
                 for victim in (names[0], names[len(names) // 2], names[-1]):
@@ -100,6 +106,9 @@ class Check(PropertyCheck):
         writes = []
         cur, answers = case["current"], case["answers"]
 
+        # statuses travel in the type the version's command table declares (EzspStatus before v14, the unified status from then on)
+        st_set = ez._protocol.COMMANDS["setConfigurationValue"][2]["status"]
+
         async def handler(name, args, kwargs):
             if name == "getValue":
                 return [t.EzspStatus.SUCCESS, b"\x00"]
@@ -115,7 +124,7 @@ class Check(PropertyCheck):
             if name == "setConfigurationValue":
                 cid = kwargs["configId"]
                 writes.append(["config", cid.name, int(cid), int(kwargs["value"])])
-                return [t.EzspStatus(answers.get(cid.name, 0))]
+                return [st_set(answers.get(cid.name, 0))]
             raise AssertionError(name)
 
         self.stack.script_commands(ez, handler)
